@@ -122,8 +122,64 @@ def periodic_histories(rng, quick):
     return reqs
 
 
+GEN_OPS = ("gen_open", "gen_next")
+
+
+def observed(ops):
+    """the steps of a history that have an observation (steps of suspended generators have none)"""
+    return [o for o in ops if o[0] not in GEN_OPS]
+
+
+def suspended_generator_histories(rng, structs, quick):
+    """rotate() / rotate_pt() generators of the object that are only partially consumed: created (with or without an explicit
+    turn count), stepped a few times, left suspended across assignments of `turns` and queries, resumed afterwards, several of
+    them interleaved.  What a generator suspended across an assignment yields is not specified, but nothing it does may
+    reach the object: afterwards every `turns = v` (each v of one full turn, in random order) still gives the v-th rotation
+    of the canonical form and all views describe it.  Complexes of two to six strands."""
+    multi = [s for s in structs if s.count("+") >= 2]
+    multi += ["(+)(+)(+)", "((+)(+)(+))", "(+(+)(+))", ".(+.(+)+)", "(.+)(+.)(+)", "(+)(+)(+)(+)", "((+)+(+)(+))", ".+.+.+.+."]
+    reqs = []
+    for _ in range(700 if quick else 8000):
+        r = rng.random()
+        s = rng.choice(multi) if r < 0.8 else gs.random_wf(rng, rng.choice([8, 14]), p_break=0.3)
+        sq = gs.seq_for(rng, s, names=("a", "b", "c"), complementary=rng.random() < 0.7)
+        n = s.count("+") + 1
+        kinds = ["rotate", "rotate_pt"]
+        ops = []
+        if rng.random() < 0.5:
+            ops.append(["set_turns", rng.randrange(-n, 2 * n)])
+        slots = rng.choice([1, 1, 2])
+        for g in range(slots):
+            ops.append(["gen_open", g, rng.choice(kinds), rng.choice([None, None, n, n + 1, 2 * n, max(n - 1, 1)])])
+            if rng.random() < 0.8:
+                ops.append(["gen_next", g, rng.randrange(1, n + 1)])
+        for _ in range(rng.randrange(1, 5)):
+            k = rng.random()
+            if k < 0.45:
+                ops.append(["set_turns", rng.randrange(-n, 2 * n)])
+            elif k < 0.85:
+                ops.append(["gen_next", rng.randrange(slots), rng.choice([1, 1, 2, n, 2 * n + 1])])
+            elif k < 0.93:
+                ops.append(["gen_open", rng.randrange(slots), rng.choice(kinds), None])
+            else:
+                ops.append([rng.choice(Q0)])
+        if rng.random() < 0.7:                                   # let the loops finish
+            for g in range(slots):
+                ops.append(["gen_next", g, 2 * n + 2])
+        sweep = list(range(n))
+        rng.shuffle(sweep)
+        for v in sweep + [rng.randrange(-n, 2 * n)]:
+            ops += [["set_turns", v], ["turns"], ["sequence"], ["structure"],
+                    [rng.choice(["kernel_string", "strand_table", "pair_table", "rotate", "rotate_pt", "exterior_domains"])]]
+            if rng.random() < 0.3:
+                ops.append(["gen_next", rng.randrange(slots), 1])
+        reqs.append(("c03_history", [sq, list(s), ops]))
+    return reqs
+
+
 def oracle(seq, st, ops, obs):
     """views recomputed from the rotation the complex must currently be in"""
+    ops = observed(ops)
     rots = gen_pil.rotations(seq, st)
     canon = gen_pil.canon(seq, st)
     n = len(rots)
@@ -276,6 +332,15 @@ def run(ctx):
                                          "print(list(map(str,c.sequence)), list(c.structure), c.canonical_form)   # harness op c03_caller_lists "
                                          + repr(rq[1])})
         ctx.cov["correspondence"]["caller-argument-lists(impl)"] = {"cases": len(creqs)}
+        # partially consumed rotate()/rotate_pt() generators suspended across assignments: the model is asked the history
+        # without the generator steps, the implementation the one with them
+        greqs = suspended_generator_histories(rng, structs, quick)
+        diffs += correspond(ctx, "view-histories-suspended-generators",
+                            [(q[0], [q[1][0], q[1][1], observed(q[1][2])]) for q in greqs], impl_reqs=greqs)
+        for rq, r in zip(greqs, run_impl([("c03_fresh_compare", q[1]) for q in greqs])):
+            if isinstance(r, Err) or r:
+                found.append({"key": {"seq": rq[1][0], "struct": "".join(rq[1][1]), "ops": rq[1][2]}, "input": rq[1],
+                              "what": str(r), "snippet": f"# harness op c03_fresh_compare {rq[1]!r} (harness/impl/views.py)"})
         impl = run_impl(reqs[:3000])
         for rq, r in zip(reqs[:3000], impl):
             if isinstance(r, Err):
